@@ -55,6 +55,10 @@ def _build():
     # proportion in every direction, hence every variance / error of a difference cell must be NaN
     reg.add(S.schema2("diff_num_cat3_x_cat3", A3, B3, weighted=True, numeric={"measures": ["mean"], "valid_counts": True}),
             (1, 2), (None, 1), configs=[{"rows": [d1]}, {"cols": [d1]}, {"rows": [d2, p1], "cols": [p12]}], quick=2, thorough=3)
+    # fractional weights: weighted bases between 0 and 1
+    reg.add(S.schema2("fracw_cat3_x_cat3", A3, B3, weighted=True), (0.25, 0.5), configs=[{}, {"rows": [d1], "cols": [p1]}],
+            quick=2, thorough=3)
+    reg.add(S.schema2("fracw_mr_x_cat3", M, B3, weighted=True), (0.25, 0.5), configs=[{}], quick=2, thorough=2)
     reg.add(Schema("diff_cat3_1d", [A3], [("cat", 0)], weighted=True), (1, 2),
             configs=[{"rows": [d1]}, {"rows": [d2, p1]}], quick=3, thorough=5)
     return reg
